@@ -83,6 +83,9 @@ def _tainted_names(fnode, seeds):
 
 
 def run(ctx):
+    from . import e2e_rules as _e2e
+
+    ctx.attempt(_e2e.iterations_rule, ctx, 'R15.E1')
     ctx.attempt(save_restore_round_trip_rule, ctx)
     from . import c17 as _c17
 
